@@ -1,32 +1,20 @@
 From Coq Require Import List Arith Bool.
-From WV Require Import Lib.Conc Model.ChanClose Proof.ChanCloseBase Proof.ChanCloseInv Proof.ChanCloseRefute
+From WV Require Import Lib.Conc Model.ChanClose Proof.ChanCloseBase Proof.ChanCloseInv Proof.ChanCloseStmt
   Proof.ChanCloseAfter Proof.ChanCloseEntry.
 Import ListNotations.
 
-(* C11 for every schedule, every lookahead L and every environment behaviour, for the close
-   decisions of the covered kinds (all but will_close := True set by _flush_exception): a
-   service() invocation entered after the decision never calls the application. *)
-Theorem C11_partial : C11_statement covered.
-Proof. exact C11_partial_positions. Qed.
-Print Assumptions C11_partial.
+(* C11 at full strength: every schedule, every lookahead L, every environment behaviour, EVERY kind
+   of close decision (worker's close branch, flushed, maintenance, both _flush_exception writes,
+   handle_close, EOF, cancel): a service() invocation entered after the decision never calls
+   the application. *)
+Theorem C11 : C11_full.
+Proof. exact C11_full_holds. Qed.
+Print Assumptions C11.
 
 (* the same as acceptance by the executable monitor that the check runs on real traces *)
-Theorem C11_partial_monitor : forall L sched, monitor covered (trace step (init L) sched) = true.
+Theorem C11_monitor : forall L sched, monitor all_kinds (trace step (init L) sched) = true.
 Proof. exact monitor_accepts. Qed.
-Print Assumptions C11_partial_monitor.
-
-(* the full statement (every kind of decision) is false of the faithful model: finding F22 *)
-Theorem C11_refuted : ~ C11_full.
-Proof. exact C11_full_refuted. Qed.
-Print Assumptions C11_refuted.
-
-Theorem C11_refuted_worker_flush_error : refuted_by DFlushErrW.
-Proof. exact C11_refuted_worker_flush. Qed.
-Print Assumptions C11_refuted_worker_flush_error.
-
-Theorem C11_refuted_io_flush_error : refuted_by DFlushErrIO.
-Proof. exact C11_refuted_io_flush. Qed.
-Print Assumptions C11_refuted_io_flush_error.
+Print Assumptions C11_monitor.
 
 (* supporting invariants, in every reachable state *)
 Theorem C11_inv : forall L sched, Inv (run step (init L) sched).
